@@ -26,7 +26,9 @@ CONSTANTS Sess,        \* session / client ids
           MaxLines,    \* lines per behaviour
           Transports   \* {"mem"} | {"tcp","unix"}
 
-WellFormed == {"query", "mutate", "await"}
+WellFormed == {"query", "mutate", "await", "forever"}
+(* "await": a command whose method waits and whose wait ends (flush, gather-and-close);
+   "forever": one whose wait does not end within the behaviour (until-closed on a pool that nobody closes) *)
 Malformed  == {"unknown", "badarg", "convfail", "help"}
 
 Has(e, k) == k \in DOMAIN e
@@ -38,7 +40,11 @@ NoSess == [ph |-> "none", inq |-> <<>>, nsent |-> 0, nrep |-> 0, pend |-> "", ow
 CInit == [srv |-> "idle", task |-> "none", sock |-> FALSE, ss |-> [s \in Sess |-> NoSess], pv |-> 0,
           lines |-> 0, stopped |-> FALSE]
 
-Open(st) == {s \in Sess : st.ss[s].ph \in {"connected", "named", "waiting"}}
+Open(st) == {s \in Sess : st.ss[s].ph \in {"connected", "named", "waiting", "stuck"}}         \* connections the server still holds
+Stuck(st) == {s \in Sess : st.ss[s].ph = "stuck"}
+(* the clients that are still connected: a session whose client has hung up ("eof" queued) but which has not noticed yet
+   - because it is inside a waiting command - is a connection the server holds, not a connected client *)
+ClientsConnected(st) == {s \in Open(st) : "eof" \notin SeqSet(st.ss[s].inq)}
 
 (* ---- transition functions ----------------------------------------------------------------------- *)
 DoServe(st, tr) == [st EXCEPT !.srv = "serving", !.task = "running", !.sock = (tr = "unix")]
@@ -58,6 +64,9 @@ DoRead(st, s) ==
       rest == Tail(st.ss[s].inq) IN
   IF cls \in {"blank", "eof"} THEN [st EXCEPT !.ss[s].ph = "gone", !.ss[s].inq = <<>>]
   ELSE IF cls = "await" THEN [st EXCEPT !.ss[s].ph = "waiting", !.ss[s].inq = rest, !.ss[s].pend = cls, !.pv = @ + 1]
+  (* AS WRITTEN (finding KF-L): while its method waits the session reads nothing, so it does not notice its client leaving;
+     a session inside an endless wait keeps its connection for good *)
+  ELSE IF cls = "forever" THEN [st EXCEPT !.ss[s].ph = "stuck", !.ss[s].inq = rest, !.ss[s].pend = cls]
   ELSE [st EXCEPT !.ss[s].inq = rest, !.ss[s].nrep = @ + 1, !.ss[s].owed = Append(@, cls),
                   !.pv = IF cls = "mutate" THEN @ + 1 ELSE @]
 
@@ -80,10 +89,10 @@ Connect == \E s \in Sess : st.srv = "serving" /\ st.ss[s].ph = "none"
               /\ st' = DoConnect(st, s) /\ hist' = Append(hist, [a |-> "connect", s |-> s])
 Handshake == \E s \in Sess : st.ss[s].ph = "connected"
               /\ st' = DoHandshake(st, s) /\ hist' = Append(hist, [a |-> "handshake", s |-> s])
-Send == \E s \in Sess, c \in Classes : st.ss[s].ph \in {"named", "waiting"} /\ st.lines < MaxLines
+Send == \E s \in Sess, c \in Classes : st.ss[s].ph \in {"named", "waiting", "stuck"} /\ st.lines < MaxLines
               /\ "eof" \notin SeqSet(st.ss[s].inq)
               /\ st' = DoSend(st, s, c) /\ hist' = Append(hist, [a |-> "send", s |-> s, cls |-> c])
-Eof == \E s \in Sess : st.ss[s].ph \in {"named", "waiting"} /\ "eof" \notin SeqSet(st.ss[s].inq)
+Eof == \E s \in Sess : st.ss[s].ph \in {"named", "waiting", "stuck"} /\ "eof" \notin SeqSet(st.ss[s].inq)
               /\ st' = [st EXCEPT !.ss[s].inq = Append(@, "eof")] /\ hist' = Append(hist, [a |-> "eof", s |-> s])
 Read == \E s \in Sess : st.ss[s].ph = "named" /\ Len(st.ss[s].inq) > 0
               /\ st' = DoRead(st, s) /\ hist' = Append(hist, [a |-> "read", s |-> s])
@@ -110,8 +119,11 @@ DoneMeansGone == st.task = "done" => (Open(st) = {} /\ st.srv = "stopped" /\ ~st
 (* C19: a disconnect or stop never touches the pool *)
 PoolUntouched == [][(st'.pv # st.pv) => \E s \in Sess : st.ss[s].ph = "named" /\ Len(st.ss[s].inq) > 0
                                                         /\ Head(st.ss[s].inq) \in {"mutate", "await"}]_vars
-(* C19 (liveness): once stopped and all clients gone, the serving task completes *)
-StopCompletes == (st.stopped /\ Open(st) = {}) ~> (st.task = "done")
+(* C19 (liveness): once stopped and all clients gone, the serving task completes.  StopCompletesStrict is the property as
+   stated; the code as written (and hence this model) violates it exactly when a client has left a session that is
+   inside an endless wait (KF-L) - TLC is expected to find that counterexample; StopCompletes is what holds otherwise. *)
+StopCompletesStrict == (st.stopped /\ ClientsConnected(st) = {}) ~> (st.task = "done")
+StopCompletes == (st.stopped /\ ClientsConnected(st) = {} /\ Stuck(st) = {}) ~> (st.task = "done" \/ Stuck(st) # {})
 
 Leaf == st.lines = MaxLines \/ st.task = "done"
 PrintLeaf == Leaf => PrintT("SCRIPT" \o ToJson([hist |-> hist]))
@@ -129,10 +141,11 @@ MInit == [pos |-> 0, st |-> CInit, ps |-> "", public |-> <<>>,
           ended |-> [s \in Sess |-> FALSE],
           viol |-> {}, hit |-> {}]
 
-MOut(g, vs, hs) ==
-  [g EXCEPT !.viol = @ \cup {[c |-> x[1], at |-> g.pos, ent |-> x[2], kf |-> ""] :
+MOutK(g, vs, hs, kf) ==
+  [g EXCEPT !.viol = @ \cup {[c |-> x[1], at |-> g.pos, ent |-> x[2], kf |-> kf] :
                              x \in {y \in vs : ~\E w \in g.viol : w.c = y[1] /\ w.ent = y[2]}},
             !.hit = @ \cup hs]
+MOut(g, vs, hs) == MOutK(g, vs, hs, "")
 
 (* C17, the reply rule: "ok" when the call returned None, otherwise the str() of its result or of the exception *)
 Expected(twk, text) == IF twk = "none" THEN "ok" ELSE text
@@ -217,15 +230,20 @@ SockMon(g0, e) ==
               Hit("C19.reply", ~stopped) \cup Hit("C19.concurrent", Cardinality(Open(g.st)) >= 2))
     [] e.e = "handshook" ->      \* a raw client that had connected without a handshake sends it later (handshakes may overlap)
          MOut(g, IF stopped THEN {} ELSE Chk("C19.connect", e.s, e.ok), Hit("C19.overlap", Cardinality(Open(g.st)) >= 2))
+    [] e.e = "sentwait" ->       \* the client sent a command whose wait does not end (until-closed); no reply is awaited
+         MOut([g EXCEPT !.st.ss[e.s].ph = "stuck"], {}, Hit("C19.waiting", TRUE))
     [] e.e = "disconnected" ->
-         MOut([g EXCEPT !.st.ss[e.s].ph = "gone"],
+         MOut([g EXCEPT !.st.ss[e.s] = IF @.ph = "stuck" THEN [@ EXCEPT !.inq = <<"eof">>] ELSE [@ EXCEPT !.ph = "gone"]],
               Chk("C19.disconnect", e.s, e.pobs = e.before /\ (e.clean \/ stopped)),     \* (after the stop the server may hang up first)
               Hit("C19.disconnect", TRUE) \cup Hit("C19.others", Cardinality(Open(g.st)) >= 2))
     [] e.e = "stop" -> MOut([g EXCEPT !.st = DoStop(g.st)], {}, Hit("C19.stopopen", Len(e.open) > 0))
     [] e.e = "finished" ->
          (* every client has gone and the task was cancelled: it must be done, nothing serves, the socket file is gone *)
-         MOut([g EXCEPT !.st = DoDone(g.st)],
-              Chk("C19.stop", -1, e.done /\ ~e.serving /\ ~e.connect /\ (e.tr = "unix" => ~e.sock)), Hit("C19.stop", TRUE))
+         (* known finding KF-L: not completed and a session whose client has left is still inside an endless wait *)
+         MOutK([g EXCEPT !.st = DoDone(g.st)],
+               Chk("C19.stop", -1, e.done /\ ~e.serving /\ ~e.connect /\ (e.tr = "unix" => ~e.sock)), Hit("C19.stop", TRUE)
+                                                                                                       \cup Hit("C19.stuck", Stuck(g.st) # {}),
+               IF ~e.done /\ ~e.serving /\ ~e.connect /\ Stuck(g.st) # {} THEN "KF-L" ELSE "")
     [] e.e = "running" ->
          MOut(g, Chk("C19.running", -1, ~e.done /\ e.serving /\ e.connect), Hit("C19.running", TRUE))
     [] e.e = "hung" ->        \* the serving process stopped responding altogether
